@@ -158,6 +158,8 @@ type Call struct {
 	Keyed     []KV
 	BatchKeys []*schema.V
 	Params    *schema.V
+	// SentKeys: the Go key values handed to the client for BatchKeys / Keyed (set by Do)
+	SentKeys []reflect.Value
 }
 
 func (c *Call) String() string {
@@ -498,8 +500,11 @@ func (w *World) Do(c *Call, r *Reply) (outs []reflect.Value, panicked interface{
 	case c.M.Name == "batch_get" || c.M.Name == "batch_delete":
 		st := mt.In(idx)
 		sl := reflect.MakeSlice(st, len(c.BatchKeys), len(c.BatchKeys))
+		c.SentKeys = nil
 		for i, k := range c.BatchKeys {
-			sl.Index(i).Set(keyToGo(k, st.Elem()))
+			gk := keyToGo(k, st.Elem())
+			c.SentKeys = append(c.SentKeys, gk)
+			sl.Index(i).Set(gk)
 		}
 		add(sl)
 	case c.M.Name == "batch_create":
@@ -512,8 +517,10 @@ func (w *World) Do(c *Call, r *Reply) (outs []reflect.Value, panicked interface{
 	case c.M.Name == "batch_update" || c.M.Name == "batch_partial_update":
 		mtp := mt.In(idx)
 		mp := reflect.MakeMap(mtp)
+		c.SentKeys = nil
 		for _, kv := range c.Keyed {
 			k := keyToGo(kv.K, mtp.Key())
+			c.SentKeys = append(c.SentKeys, k)
 			if kv.P != nil {
 				mp.SetMapIndex(k, patchToGo(kv.P, mtp.Elem()))
 			} else {
